@@ -1089,6 +1089,24 @@ theorem C09_writer_real_round_trips (cfg : LexCfg) (lookup : Int → RefLookup) 
   C09_writer_real_round_trips_model cfg lookup nullable bits hfin (C09_writer_seventeen_digits_convert_back bits hlt hfin) hnn hbuf
     sp rest d hsp hd
 
+/-- **… for the source as it is** (an instantiation at the regenerated configuration): with the `WriteReal` found in the tree
+    (`Generated.writeRealRoundTrips`, regenerated from the shape of its `sprintf` loop) and the scanner configuration found in
+    the tree (`Generated.lexCfg`: no fixed-size buffer in `ReadReal`), every finite 64-bit pattern other than the in-band null
+    is written as a token that — followed by any `Gap` and a delimiter — reads back to exactly that pattern with no error.
+    On a tree whose `WriteReal` prints 15 digits only this theorem does not compile. -/
+theorem C09_writer_real_round_trips_source (lookup : Int → RefLookup) (nullable : Bool) (bits : Nat)
+    (hlt : bits < 2 ^ 64) (hfin : (bits / Dbl.pow2 52 % 2048 == 2047) = false)
+    (hnn : (bits == Dbl.realNullBits) = false)
+    (sp rest : List Byte) (d : Byte) (hsp : Gap Generated.lexCfg sp) (hd : d = 44 ∨ d = 41) :
+    attrRead (dblOpsOf Generated.writeRealRoundTrips) Generated.lexCfg lookup .real nullable
+        (IStream.ofBytes (attrWrite (dblOpsOf Generated.writeRealRoundTrips) .real (.real bits) ++ sp ++ d :: rest)) =
+      .ok ⟨.null, .real bits,
+        { left := sp.reverse ++ (attrWrite (dblOpsOf Generated.writeRealRoundTrips) .real (.real bits)).reverse, right := d :: rest }⟩ := by
+  have hrt : Generated.writeRealRoundTrips = true := by decide
+  have hops : dblOpsOf Generated.writeRealRoundTrips = dblOpsRT := by rw [hrt]; rfl
+  rw [hops]
+  exact C09_writer_real_round_trips Generated.lexCfg lookup nullable bits hlt hfin hnn (Or.inl (by decide)) sp rest d hsp hd
+
 /-- … and for the 15-digit writer (`dblOps`, the unrepaired `WriteReal` and `asStr`): `hstable` of
     `C09_writer_real_reads_back_model` reduced the same way — the written token reads back to the value whenever the double's 15
     significant digits are rounded back to it (`SigDigitsReadBack 15 bits`: true of every double that came from a decimal of at
